@@ -103,6 +103,9 @@ def run(chk):
         for sess in pipegen.query_rule_sessions(callers):
             done = runner.run_session(sess, chk.count)
             chk.count("same_path_other_query_requests", len(done))
+        for c_ in pipegen.process_name_cases(callers):
+            runner.run_case(c_)
+            chk.count("long_process_name_cases")
         runner.finish(oracle)
         if stack.panics():
             chk.notes.append("panics observed: " + "; ".join(stack.panics()[:3]))
@@ -111,6 +114,14 @@ def run(chk):
         chk.sample(runner.describe(runner.observations[-1]))
     finally:
         stack.close()
+    # the policy cannot be looked up (the actor holding it has died): nothing is relayed, the client gets an error status
+    for ob in [o_ for first in ("ws", "imds", "ws-elevated") for o_ in pipe.rules_lookup_fails(binp, chk.count, first)]:
+        chk.case(nontrivial_key=("rules-lookup-fails", ob["label"], ob["elevated"], ob["actor"], ob["status"]))
+        if ob["upstream_bytes"]:
+            chk.violation("bytes reached a metadata host although the connection was not attributed / the path had '..' / the policy could not be "
+                          "looked up / the policy does not authorize the caller", ob, expected="no upstream bytes", observed=ob["upstream_bytes"])
+        elif ob["status"] not in REFUSALS:
+            chk.violation("refused request did not get one of 404/421/500/403", ob, expected=REFUSALS, observed=ob["status"])
     for k in ("relayed", "model_respond403", "model_respond421", "model_respond404"):
         if chk.counts.get(k, 0) == 0:
             chk.broken.append({"kind": "gate", "name": "generator sanity", "why": f"branch {k} never exercised"})
